@@ -11,9 +11,10 @@ EXTENDS Naturals, Sequences, FiniteSets, TLC, Json
 Feeders == {"sumdb", "tiles", "pixel", "rekor", "serverless"}
 WitnessStates == {"none", "held"}
 \* what the log's checkpoint endpoint answers
-CpClasses == {"valid", "size0", "size2^62", "size2^62+", "size2^63", "size2^64-1", "hash0", "hash5", "hash33", "badsig", "truncated", "oversized", "random", "status404", "status500", "empty"}
+CpClasses == {"valid", "size0", "size2^62", "size2^62+", "size2^63", "size2^64-1", "hash0", "hash5", "hash33", "badsig", "truncated", "oversized", "random", "status404", "status500", "empty",
+              "json-null-shard", "json-inactive-shard", "json-odd-types"}
 \* what its tile / proof endpoints answer
-DataClasses == {"valid", "truncated", "oversized", "random", "status404", "status500", "empty"}
+DataClasses == {"valid", "truncated", "oversized", "random", "status404", "status500", "empty", "json-null", "json-odd"}
 
 VARIABLES scen, phase, outcome
 vars == <<scen, phase, outcome>>
